@@ -95,9 +95,11 @@ public:
    */
   template<class T> static T logsum(T lnx, T lny)
   {
-    return (lny < lnx) ?
-           lnx + std::log(1. + exp(lny - lnx)) :
-           lny + std::log(1. + exp(lnx - lny));
+    if (lny < lnx)
+      return lnx + std::log(1. + exp(lny - lnx));
+    if (std::isinf(lny))
+      return lny; // both terms are log(0) (or the sum is infinite): inf - inf below would give NaN
+    return lny + std::log(1. + exp(lnx - lny));
   }
 
   /**************************************************************************/
